@@ -655,25 +655,32 @@ class PKey:
             # Unpack salt and rounds from kdfoptions
             salt, rounds = self._uint32_cstruct_unpack(kdf_options, "su")
 
-            # run bcrypt kdf to derive key and iv/nonce (32 + 16 bytes)
-            key_iv = bcrypt.kdf(
-                b(password),
-                b(salt),
-                48,
-                rounds,
-                # We can't control how many rounds are on disk, so no sense
-                # warning about it.
-                ignore_few_rounds=True,
-            )
-            key = key_iv[:32]
-            iv = key_iv[32:]
+            # ValueError: empty salt / zero rounds (bcrypt), or a ciphertext
+            # that is not a multiple of the block size
+            try:
+                # run bcrypt kdf to derive key and iv/nonce (32 + 16 bytes)
+                key_iv = bcrypt.kdf(
+                    b(password),
+                    b(salt),
+                    48,
+                    rounds,
+                    # We can't control how many rounds are on disk, so no
+                    # sense warning about it.
+                    ignore_few_rounds=True,
+                )
+                key = key_iv[:32]
+                iv = key_iv[32:]
 
-            # decrypt private key blob
-            decryptor = Cipher(
-                algorithms.AES(key), mode(iv), default_backend()
-            ).decryptor()
-            decrypted_privkey = decryptor.update(privkey_blob)
-            decrypted_privkey += decryptor.finalize()
+                # decrypt private key blob
+                decryptor = Cipher(
+                    algorithms.AES(key), mode(iv), default_backend()
+                ).decryptor()
+                decrypted_privkey = decryptor.update(privkey_blob)
+                decrypted_privkey += decryptor.finalize()
+            except ValueError as e:
+                raise SSHException(
+                    "unable to decrypt private key file: {}".format(e)
+                )
         elif cipher == b("none") and kdfname == b("none"):
             # Unencrypted private key
             decrypted_privkey = privkey_blob
